@@ -1,5 +1,8 @@
 #![allow(dead_code)]
 mod cli;
+mod closure;
+mod space;
+mod textsem;
 mod conv;
 mod enumerate;
 mod props;
